@@ -24,15 +24,16 @@ pub struct Line {
     pub role: &'static str,
 }
 
-pub const UNIVERSE_DEFAULT: [&str; 9] = ["", "/a", "/ab", "/a.b", "/a/a", "/a/é", "/a/a/b", "/c", "/c/d"];
+// "/c/日本": a name whose first character is above U+00FF (three-byte UTF-8), next to the Latin-1 "é"
+pub const UNIVERSE_DEFAULT: [&str; 10] = ["", "/a", "/ab", "/a.b", "/a/a", "/a/é", "/a/a/b", "/c", "/c/d", "/c/日本"];
 /// variant with names that end in the overlay's marker suffix. An entry `x_wo` NEXT TO an entry `x`
 /// is the reserved-name clash the properties set aside (the marker file of `x` and the marker
 /// directory of a directory `x_wo` are the same path); names ending in `_wo` without such a
 /// sibling are ordinary names and must work.
-pub const UNIVERSE_WO: [&str; 9] = ["", "/a", "/ab", "/a.b", "/a/a", "/a/e_wo", "/a/a/b", "/c", "/c/d_wo"];
+pub const UNIVERSE_WO: [&str; 10] = ["", "/a", "/ab", "/a.b", "/a/a", "/a/e_wo", "/a/a/b", "/c", "/c/d_wo", "/c/日_wo"];
 static UNIVERSE_VARIANT: std::sync::atomic::AtomicUsize = std::sync::atomic::AtomicUsize::new(0);
 /// the fixed path universe of this process (chosen once from the command line: `--names wo`)
-pub fn universe() -> &'static [&'static str; 9] {
+pub fn universe() -> &'static [&'static str; 10] {
     if UNIVERSE_VARIANT.load(std::sync::atomic::Ordering::Relaxed) == 1 { &UNIVERSE_WO } else { &UNIVERSE_DEFAULT }
 }
 pub fn set_universe_variant(v: usize) {
@@ -270,7 +271,7 @@ pub struct Op {
     pub path: String,
     pub bytes: Option<Vec<u8>>,
     pub dest: Option<String>,
-    pub time: Option<i64>,
+    pub time: Option<i128>,
 }
 impl Op {
     pub fn line(&self, fs: usize) -> String {
@@ -532,7 +533,13 @@ pub fn gen_op(rng: &mut Rng, ts: &TreeSpec, snap: &BTreeMap<String, Obs>, cfg: &
                 op.dest = Some(d);
             }
             "set_mtime" | "set_atime" | "set_ctime" => {
-                op.time = Some(*rng.pick(&[0i64, 1, 86_400, 1_000_000_000, 1_234_567_890, 999_999_999][..]));
+                // nanoseconds relative to the epoch: the epoch itself, one nanosecond around it,
+                // sub-second parts before and after the epoch, whole seconds, far past and future.
+                // On physical backends only what the host file system represents (ext4: 1901..2446).
+                const S: i128 = 1_000_000_000;
+                let common: [i128; 12] = [0, 1, -1, S, 86_400 * S, 1_000_000_000 * S, 1_234_567_890 * S + 123_456_789, 999_999_999 * S + 999_999_999, -S - 1, -86_400 * S - S / 2, -2_000_000_000 * S + 7, 14_000_000_000 * S + 250_000_000];
+                let far: [i128; 3] = [100_000_000_000 * S + 5, -100_000_000_000 * S - 5, -(S / 4)];
+                op.time = Some(if !cfg.name.contains("phys") && rng.chance(1, 5) { *rng.pick(&far[..]) } else { *rng.pick(&common[..]) });
             }
             _ => {}
         }
